@@ -121,9 +121,9 @@ def needsS (parent : PrecU.Node BinOp UnOp) (isLeft : Bool) (e : SExpr) : Bool :
 def wrapR (b : Bool) (ts : List RTok) : List RTok := if b then .lp :: (ts ++ [.rp]) else ts
 
 def fn1Name : Fn1 → List Char
-  | .abs => "math.abs".toList
+  | .abs => ['m', 'a', 't', 'h', '.', 'a', 'b', 's']
 
-def userFnName (o : BinOp) : List Char := "f_".toList ++ o.name.toList.map Char.toLower
+def userFnName (o : BinOp) : List Char := ['f', '_'] ++ o.lname
 
 /-- source tokens of a tree, minimal parentheses by the documented table -/
 def srcToks : SExpr → List RTok
@@ -133,21 +133,28 @@ def srcToks : SExpr → List RTok
     wrapR (needsS (.b o) true l) (srcToks l) ++ (.sym o.tok :: wrapR (needsS (.b o) false r) (srcToks r))
   | .un u e => .sym u.tok :: wrapR (needsS (.u u) false e) (srcToks e)
   | .caseB c v rest =>
-    [.word "case".toList, .word ['[']] ++ srcToks c ++ [.word "=>".toList] ++ srcToks v ++ caseTail rest
-  | .caseEnd => [.word "case".toList, .word ['['], .word [']']]
+    [.word ['c', 'a', 's', 'e'], .word ['[']] ++ srcToks c ++ [.word ['=', '>']] ++ srcToks v ++ caseTail rest
+  | .caseEnd => [.word ['c', 'a', 's', 'e'], .word ['['], .word [']']]
   | .inRange x lo hi =>
-    [.lp] ++ srcToks x ++ [.word ['|'], .word "in".toList] ++ wrapR (!isLeaf lo) (srcToks lo) ++ [.word "..".toList]
+    [.lp] ++ srcToks x ++ [.word ['|'], .word ['i', 'n']] ++ wrapR (!isLeaf lo) (srcToks lo) ++ [.word ['.', '.']]
       ++ wrapR (!isLeaf hi) (srcToks hi) ++ [.rp]
   | .fn1 f x => [.lp, .word (fn1Name f)] ++ wrapR (!isLeaf x) (srcToks x) ++ [.rp]
   | .call2 o l r => [.lp, .word (userFnName o)] ++ wrapR (!isLeaf l) (srcToks l) ++ wrapR (!isLeaf r) (srcToks r) ++ [.rp]
 where
   caseTail : SExpr → List RTok
-  | .caseB c v rest => [.word [',']] ++ srcToks c ++ [.word "=>".toList] ++ srcToks v ++ caseTail rest
+  | .caseB c v rest => [.word [',']] ++ srcToks c ++ [.word ['=', '>']] ++ srcToks v ++ caseTail rest
   | .caseEnd => [.word [']']]
-  | e => [.word [','], .word "true".toList, .word "=>".toList] ++ srcToks e ++ [.word [']']]
+  | e => [.word [','], .word ['t', 'r', 'u', 'e'], .word ['=', '>']] ++ srcToks e ++ [.word [']']]
 
 /-! ### rendering -/
-def natDigits (n : Nat) : List Char := (toString n).toList
+def digitChar (d : Nat) : Char := Char.ofNat ('0'.toNat + d)
+
+/-- decimal digits, most significant first (fuel = the number itself) -/
+def natDigitsAux : Nat → Nat → List Char → List Char
+  | 0, _, acc => acc
+  | f + 1, n, acc => if n < 10 then digitChar n :: acc else natDigitsAux f (n / 10) (digitChar (n % 10) :: acc)
+
+def natDigits (n : Nat) : List Char := natDigitsAux (n + 1) n []
 
 def padFrac (e : Nat) (ds : List Char) : List Char := List.replicate (e - ds.length) '0' ++ ds
 
@@ -159,9 +166,9 @@ def floatText (m : Int) (e : Nat) : List Char :=
 def colName (i : Nat) : List Char := [Char.ofNat ('a'.toNat + i)]
 
 def litSrc : Lit → List Char
-  | .null => "null".toList
+  | .null => ['n', 'u', 'l', 'l']
   | .int i => (if i < 0 then ['-'] else []) ++ natDigits i.natAbs
-  | .bool b => if b then "true".toList else "false".toList
+  | .bool b => if b then ['t', 'r', 'u', 'e'] else ['f', 'a', 'l', 's', 'e']
   | .float m e => floatText m e
   | .str s => ['\''] ++ s ++ ['\'']
 
